@@ -295,7 +295,9 @@ func genProg(r *common.Rng, nkeys int, capOnly bool) prog {
 		return p
 	case c < 66:
 		nx := r.Chance(70)
-		return prog{Kind: "PE", Hm: 1 + r.Intn(3), Post: r.Chance(85), Nx: nx, Nd: nx && r.Chance(15)}
+		// (never "expired again": one RPC would give all its records the same past expiry, and the
+		// order of equal expiries in the index is not specified - the replay could not predict it)
+		return prog{Kind: "PE", Hm: 1 + r.Intn(3), Post: r.Chance(85), Nx: nx}
 	case c < 78 || capOnly:
 		return prog{Kind: "SH", Hm: 1 + r.Intn(2)}
 	case c < 86:
@@ -435,6 +437,33 @@ func runForced(e *lib.Env, max int, rs []rec, ps []prog, sched []mstep, kind str
 			break
 		}
 		o.Counts = append(o.Counts, countM(dump(e, sw)))
+	}
+	// let the remaining threads finish ONE AT A TIME (parked ones first, then those waiting for capMu,
+	// then the ones never started): released all at once, a Shift and a save can run into the
+	// engine's own lock-order deadlock, which is not what this check is about
+	settle := func() {
+		for t := range ps {
+			if at[t] == "blocked" && ctl.Wait(t, 300*time.Millisecond) == "done" {
+				at[t] = "done"
+			}
+		}
+	}
+	for t := range ps {
+		if at[t] != "" && at[t] != "blocked" && at[t] != "done" {
+			at[t] = ctl.Advance(t, 3*time.Second)
+			settle()
+		}
+	}
+	for t := range ps {
+		if at[t] == "blocked" {
+			at[t] = ctl.Wait(t, 3*time.Second)
+		}
+	}
+	for t := range ps {
+		if at[t] == "" {
+			at[t] = ctl.Advance(t, 3*time.Second)
+			settle()
+		}
 	}
 	if !ctl.Drain(len(ps), 5*time.Second) {
 		o.Notes = append(o.Notes, "hang: a thread did not finish")
